@@ -242,13 +242,40 @@ theorem getD_matVec (D : List (List ℝ)) (v : List ℝ) (i : Nat) (hi : i < D.l
 
 /-! ### the composed panner -/
 
-/-- the hypothesis left for QuadRegions: every QuadRegion of the table that has a channel feeding one of `rows` answers
-    `None` for every direction on the far side -/
-def QuadsRejectFar (l : RawLayout) (rows : List Nat) (up : Bool) : Prop :=
-  ∀ r ∈ l.regions, r.kind = 2 → touches l rows r = true → ∀ (q0 q1 q2 q3 : P3), r.pos = [q0, q1, q2, q3] →
-    ∀ p : Vec3 ℝ, FarSide up p →
-      let q : QuadRegion ℝ := ⟨r.pos.map p3, r.order⟩
-      q.handle (quadRoot (q.polys p).1) (quadRoot (q.polys p).2) p = none
+/-- `scatter` leaves channel `c` at 0 when every value it writes there is 0 -/
+theorem scatter_getD_zero : ∀ (is : List Nat) (vs out : List ℝ) (c : Nat), out.getD c 0 = 0 →
+    (∀ j, is[j]? = some c → vs.getD j 0 = 0) → (scatter out is vs).getD c 0 = 0
+  | [], _, out, c, h, _ => by simpa [scatter] using h
+  | _ :: _, [], out, c, h, _ => by simpa [scatter] using h
+  | i :: is, v :: vs, out, c, h, hz => by
+    rw [scatter]
+    apply scatter_getD_zero is vs _ c
+    · by_cases hic : i = c
+      · subst hic
+        have hv : v = 0 := by simpa using hz 0 (by simp)
+        subst hv
+        rw [List.getD_eq_getElem?_getD, List.getElem?_set]
+        simp only [if_true]
+        split <;> rfl
+      · rw [List.getD_eq_getElem?_getD, List.getElem?_set_ne hic, ← List.getD_eq_getElem?_getD]; exact h
+    · intro j hj
+      simpa using hz (j + 1) (by simpa using hj)
+
+/-- the QuadRegion `r` of the table `l`, asked for the direction `p`, answers `None`, or its answer gives the weight
+    EXACTLY 0 to every corner whose channel feeds one of the real channels `rows` (the pan value across the layer is a
+    root clipped to 0 resp. 1, so the two bilinear weights `x·y`, `(1−x)·y` … of those corners are products with 0) -/
+def QuadZeroAt (l : RawLayout) (rows : List Nat) (r : RawRegion) (p : Vec3 ℝ) : Prop :=
+  let q : QuadRegion ℝ := ⟨r.pos.map p3, r.order⟩
+  ∀ gv, q.handle (quadRoot (q.polys p).1) (quadRoot (q.polys p).2) p = some gv →
+    ∀ j c, r.ch[j]? = some c → (rows.any fun i => feeds l i c) = true → gv.getD j 0 = 0
+
+/-- the hypothesis left for QuadRegions: every QuadRegion of the table that has a channel feeding one of `rows`, asked for
+    a direction on the far side, answers `None` OR gives the corners feeding `rows` the weight exactly 0 (`QuadZeroAt`).
+    (The stronger "always answers `None`" is FALSE on the real tables: for `p.z` between about −1e-10 and −3e-11 the
+    vertical pan root is still inside `pan_axis`' window (−1e-10, 1+1e-10), is clipped to 0 and the quad accepts — with
+    weight exactly 0 on its upper corners; see the `example` on 4+5+0 in Props/C05.lean.) -/
+def QuadsZeroFar (l : RawLayout) (rows : List Nat) (up : Bool) : Prop :=
+  ∀ r ∈ l.regions, r.kind = 2 → touches l rows r = true → ∀ p : Vec3 ℝ, FarSide up p → QuadZeroAt l rows r p
 
 theorem mem_results {regions : List (Region ℝ)} {n : Nat} {roots : Nat → Option ℝ × Option ℝ} {p : Vec3 ℝ} {g : List ℝ}
     (h : PointSourcePanner.handle regions n roots p = some g) :
@@ -268,12 +295,13 @@ theorem mem_results {regions : List (Region ℝ)} {n : Nat} {roots : Nat → Opt
     exact ⟨k, regions[k], gv, List.getElem?_eq_getElem hk', hh, hr⟩
 
 /-- **Layer separation on a checked table.**  `rows`: real channels; every region with a channel feeding one of them
-    is one-sided (`layerOkQ`; QuadRegions by hypothesis `hq`).  For every direction on the far side the modelled
-    `configure(layout).handle` gives every channel of `rows` the gain exactly 0. -/
+    is one-sided (`layerOkQ`; QuadRegions by hypothesis `hq`: `None` or weight 0 on the corners feeding `rows`).  For every
+    direction on the far side the modelled `configure(layout).handle` answers a vector with one entry per real channel
+    that gives every channel of `rows` the gain exactly 0. -/
 theorem layer_separation_of_check (K : Nat) (l : RawLayout) (hwf : l.wellFormed = true) (hst : l.stereo = none)
-    (rows : List Nat) (up : Bool) (hc : layerOkQ K l rows up = true) (hq : QuadsRejectFar l rows up) (p : Vec3 ℝ)
+    (rows : List Nat) (up : Bool) (hc : layerOkQ K l rows up = true) (hq : QuadsZeroFar l rows up) (p : Vec3 ℝ)
     (hp : FarSide up p) (out : List ℝ) (hout : handleSel quadRoot l p = some out) (i : Nat) (hi : i ∈ rows)
-    (hir : i < l.nReal) : out.getD i 0 = 0 := by
+    (hir : i < l.nReal) : out.length = l.nReal ∧ out.getD i 0 = 0 := by
   obtain ⟨regions, hregs⟩ := mapM_toRegion_of_wf l hwf
   unfold handleSel at hout
   rw [hregs] at hout
@@ -301,68 +329,69 @@ theorem layer_separation_of_check (K : Nat) (l : RawLayout) (hwf : l.wellFormed 
     subst hreg'
     set r := l.regions[k] with hr
     have hrmem : r ∈ l.regions := List.getElem_mem _
-    -- it does not touch `rows`
-    have hnt : touches l rows r = false := by
-      by_contra ht
-      have ht' : touches l rows r = true := by simpa using ht
-      unfold layerOkQ at hc
-      rw [List.all_eq_true] at hc
-      have := hc r hrmem
-      simp only [ht', Bool.not_true, Bool.false_or, Bool.or_eq_true, beq_iff_eq] at this
-      have hrw : r.wellFormed l.nInner = true := by
-        simp only [RawLayout.wellFormed, Bool.and_eq_true, List.all_eq_true] at hwf
-        exact hwf.1.1.1 r hrmem
-      rcases this with hk2 | hone
-      · -- a quad: by hypothesis
-        obtain ⟨kind, ch, pos, centre, cdm, order⟩ := r
-        simp only at hk2
-        subst hk2
-        simp only [RawRegion.wellFormed, Bool.and_eq_true, beq_iff_eq] at hrw
-        obtain ⟨⟨⟨_, _⟩, hposlen⟩, hk4⟩ := hrw
-        have hl4 : pos.length = 4 := by rw [hposlen]; simpa using hk4.1
-        match pos, hl4, hto, hrmem, ht' with
-        | [q0, q1, q2, q3], _, hto, hrmem, ht' =>
-          simp only [RawRegion.toRegion, Option.some.injEq] at hto
-          subst hto
-          have := hq _ hrmem rfl ht' q0 q1 q2 q3 rfl p hp
-          simp only [Region.handle, rootsOf, hreg] at hacc
-          simp only at this
-          rw [this] at hacc
+    -- the accepting region gives the weight 0 to every channel of its own that feeds `rows`
+    have hzero : ∀ j c, r.ch[j]? = some c → (rows.any fun i => feeds l i c) = true → gv.getD j 0 = 0 := by
+      by_cases ht' : touches l rows r = true
+      · unfold layerOkQ at hc
+        rw [List.all_eq_true] at hc
+        have := hc r hrmem
+        simp only [ht', Bool.not_true, Bool.false_or, Bool.or_eq_true, beq_iff_eq] at this
+        have hrw : r.wellFormed l.nInner = true := by
+          simp only [RawLayout.wellFormed, Bool.and_eq_true, List.all_eq_true] at hwf
+          exact hwf.1.1.1 r hrmem
+        rcases this with hk2 | hone
+        · -- a quad: by hypothesis
+          have hqz := hq r hrmem hk2 ht' p hp
+          obtain ⟨kind, ch, pos, centre, cdm, order⟩ := r
+          simp only at hk2
+          subst hk2
+          simp only [RawRegion.wellFormed, Bool.and_eq_true, beq_iff_eq] at hrw
+          obtain ⟨⟨⟨_, _⟩, hposlen⟩, hk4⟩ := hrw
+          have hl4 : pos.length = 4 := by rw [hposlen]; simpa using hk4.1
+          match pos, hl4, hto, hqz with
+          | [q0, q1, q2, q3], _, hto, hqz =>
+            simp only [RawRegion.toRegion, Option.some.injEq] at hto
+            subst hto
+            simp only [Region.handle, rootsOf, hreg] at hacc
+            exact hqz gv hacc
+        · have hperm : isPermOfRange r.order r.pos.length = true ∨ r.kind ≠ 1 := by
+            by_cases hk1 : r.kind = 1
+            · left
+              obtain ⟨kind, ch, pos, centre, cdm, order⟩ := r
+              simp only at hk1
+              subst hk1
+              simp only [RawRegion.wellFormed, Bool.and_eq_true, beq_iff_eq] at hrw
+              obtain ⟨⟨⟨_, _⟩, hposlen⟩, hk4⟩ := hrw
+              simp only
+              rw [hposlen]
+              exact hk4.1.2
+            · right; exact hk1
+          rw [regionOneSided_sound K up r reg hto hone hperm _ p hp] at hacc
           exact absurd hacc (by simp)
-      · have hperm : isPermOfRange r.order r.pos.length = true ∨ r.kind ≠ 1 := by
-          by_cases hk1 : r.kind = 1
-          · left
-            obtain ⟨kind, ch, pos, centre, cdm, order⟩ := r
-            simp only at hk1
-            subst hk1
-            simp only [RawRegion.wellFormed, Bool.and_eq_true, beq_iff_eq] at hrw
-            obtain ⟨⟨⟨_, _⟩, hposlen⟩, hk4⟩ := hrw
-            simp only
-            rw [hposlen]
-            exact hk4.1.2
-          · right; exact hk1
-        rw [regionOneSided_sound K up r reg hto hone hperm _ p hp] at hacc
-        exact absurd hacc (by simp)
+      · intro j c hj hf
+        exfalso
+        apply ht'
+        unfold touches
+        rw [List.any_eq_true]
+        exact ⟨c, List.mem_of_getElem? hj, hf⟩
+    refine ⟨by simp [normalise, matVec, length_downmixRows'], ?_⟩
     -- hence row `i` of the downmix meets only zeros
     rw [toRegion_channels r reg hto]
     apply getD_normalise
     rw [getD_matVec _ _ _ (by rw [length_downmixRows']; exact hir)]
     apply dot_eq_zero
     intro c
-    by_cases hcm : c ∈ r.ch
-    · left
-      apply downmixRows_zero l i c hir
-      unfold touches at hnt
-      rw [List.any_eq_false] at hnt
-      have := hnt c hcm
-      rw [Bool.not_eq_true, List.any_eq_false] at this
-      simpa using this i hi
+    by_cases hf : feeds l i c = true
     · right
-      rw [scatter_getD_of_not_mem _ _ _ _ hcm, getD_zeros]
+      apply scatter_getD_zero _ _ _ _ (getD_zeros _ _)
+      intro j hj
+      exact hzero j c hj (by rw [List.any_eq_true]; exact ⟨i, hi, hf⟩)
+    · left
+      exact downmixRows_zero l i c hir (by simpa using hf)
 
 /-- a table all of whose touching regions are one-sided has no touching QuadRegion -/
 theorem layerOk_noquad (K : Nat) (l : RawLayout) (rows : List Nat) (up : Bool) (h : layerOk K l rows up = true) :
-    layerOkQ K l rows up = true ∧ QuadsRejectFar l rows up := by
+    layerOkQ K l rows up = true ∧ QuadsZeroFar l rows up := by
   unfold layerOk at h
   rw [List.all_eq_true] at h
   constructor
@@ -390,6 +419,43 @@ theorem layerRows_lt (l : RawLayout) (up : Bool) (k : Nat) (h : k ∈ layerRows 
   · rename_i hs
     rw [List.mem_filter, List.mem_range] at h
     exact ⟨h.1, hs⟩
+
+/-! ### one pan axis of one QuadRegion at one (binary64) direction: a decidable check -/
+
+/-- the pan axis (`rot = false`: `pan_x`, `rot = true`: `pan_y`) of the QuadRegion `r`, asked for the direction `v`, can only
+    return clips of roots in `[xl, xh]` (`axisOk` on the scaled integer corners in vertex order) -/
+def quadAxisOk (K : Nat) (r : RawRegion) (v : P3) (rot : Bool) (xl xh : Q2) : Bool :=
+  match r.pos.mapM (scaleP3 K), scaleP3 K v with
+  | some ps, some p =>
+    let c := fun k => ps.getD (r.order.getD k 0) (0, 0, 0)
+    if rot then axisOk (ipanPoly (c 1) (c 2) (c 3) (c 0) p) xl xh else axisOk (ipanPoly (c 0) (c 1) (c 2) (c 3) p) xl xh
+  | _, _ => false
+
+theorem quadAxisOk_sound (K : Nat) (r : RawRegion) (v : P3) (rot : Bool) (xl xh : Q2)
+    (h : quadAxisOk K r v rot xl xh = true) :
+    let q : QuadRegion ℝ := ⟨r.pos.map p3, r.order⟩
+    AxisIn (if rot then (q.polys (p3 v)).2 else (q.polys (p3 v)).1) ((xl.1 : ℝ) / xl.2) ((xh.1 : ℝ) / xh.2) := by
+  unfold quadAxisOk at h
+  split at h
+  · rename_i ps p hps hp
+    have hget := mapM_scale_getD K r.pos ps hps
+    have ep := scaleP3_real K v p hp
+    have hS : (0 : ℝ) < (2 : ℝ) ^ K := by positivity
+    cases rot
+    · simp only [Bool.false_eq_true, if_false] at h ⊢
+      exact axisOk_real _ hS _ _ _ _ p _ _ _ _ (p3 v) (hget _) (hget _) (hget _) (hget _) ep xl xh h
+    · simp only [if_true] at h ⊢
+      exact axisOk_real _ hS _ _ _ _ p _ _ _ _ (p3 v) (hget _) (hget _) (hget _) (hget _) ep xl xh h
+  · exact absurd h (by simp)
+
+theorem clip01_zero : clip01 (0 : ℝ) = 0 := by
+  simp [clip01, min_real, max_real, zero_real, one_real]
+
+/-- a pan value certified to lie in `[·, 0]` is exactly 0 -/
+theorem AxisIn.eq_zero {c : ℝ × ℝ × ℝ} {xl : ℝ} (h : AxisIn c xl 0) (x : ℝ) (hx : quadRoot c = some x) : x = 0 := by
+  obtain ⟨h0, h1⟩ := h.mem x hx
+  rw [clip01_zero] at h1
+  exact le_antisymm h1 (le_trans (clip01_nonneg _) h0)
 
 /-- non-vacuity of `triplet_none_of_above`: the triplet (1,0,0), (0,1,0), (0,0,−1) (all z ∈ [−1, 0]) rejects straight up -/
 example : Triplet.handle (((1 : ℝ), (0 : ℝ), (0 : ℝ)), ((0 : ℝ), (1 : ℝ), (0 : ℝ)), ((0 : ℝ), (0 : ℝ), (-1 : ℝ)))
